@@ -41,8 +41,9 @@ func declNames(line string) []string {
 }
 
 // buildScript assembles the SMT-LIB script for an obligation with only the declarations it needs.
-func buildScript(decls []string, axioms []string, o *Obl, forCVC5 bool, slice bool) string {
+func buildScript(decls []string, axioms []string, o *Obl, forCVC5 bool, slice bool, mode Mode) string {
 	body := make([]string, 0, len(o.PC)+2)
+	var extraDecls []string
 	if o.Expect == "sat" {
 		// vacuity guard: is the whole path condition satisfiable?
 		for _, c := range o.PC {
@@ -53,21 +54,25 @@ func buildScript(decls []string, axioms []string, o *Obl, forCVC5 bool, slice bo
 	} else {
 		// cone of influence: keep only the hypotheses that (transitively) share a symbol with the goal.
 		// Dropping hypotheses can only make the obligation harder, never unsound.
+		pcs, goal := o.PC, o.Goal
+		if !o.NoPre {
+			pcs, goal, extraDecls = preprocess(o.PC, o.Goal, mode)
+		}
 		syms := map[string]bool{}
-		for _, t := range identRe.FindAllString(o.Goal, -1) {
+		for _, t := range identRe.FindAllString(goal, -1) {
 			if strings.ContainsAny(t, "!") || strings.HasPrefix(t, "H0_") || strings.HasPrefix(t, "uf_") || strings.HasPrefix(t, "app") || strings.HasPrefix(t, "pure") {
 				syms[t] = true
 			}
 		}
-		toks := make([][]string, len(o.PC))
-		for i, c := range o.PC {
+		toks := make([][]string, len(pcs))
+		for i, c := range pcs {
 			for _, t := range identRe.FindAllString(c, -1) {
 				if strings.ContainsAny(t, "!") || strings.HasPrefix(t, "H0_") || strings.HasPrefix(t, "uf_") || strings.HasPrefix(t, "app") || strings.HasPrefix(t, "pure") {
 					toks[i] = append(toks[i], t)
 				}
 			}
 		}
-		keep := make([]bool, len(o.PC))
+		keep := make([]bool, len(pcs))
 		if len(syms) == 0 || !slice {
 			// reachability goal ("false"): the whole path condition matters
 			for i := range keep {
@@ -76,7 +81,7 @@ func buildScript(decls []string, axioms []string, o *Obl, forCVC5 bool, slice bo
 		}
 		for changed := true; changed; {
 			changed = false
-			for i := range o.PC {
+			for i := range pcs {
 				if keep[i] {
 					continue
 				}
@@ -96,12 +101,12 @@ func buildScript(decls []string, axioms []string, o *Obl, forCVC5 bool, slice bo
 				}
 			}
 		}
-		for i, c := range o.PC {
+		for i, c := range pcs {
 			if keep[i] && c != "true" {
 				body = append(body, "(assert "+c+")")
 			}
 		}
-		body = append(body, "(assert (not "+o.Goal+"))")
+		body = append(body, "(assert (not "+goal+"))")
 	}
 	needed := map[string]bool{}
 	addToks := func(s string) {
@@ -158,6 +163,10 @@ func buildScript(decls []string, axioms []string, o *Obl, forCVC5 bool, slice bo
 			sb.WriteString(d)
 			sb.WriteByte('\n')
 		}
+	}
+	for _, d := range extraDecls {
+		sb.WriteString(d)
+		sb.WriteByte('\n')
 	}
 	for i, a := range axioms {
 		if inclAx[i] {
@@ -315,7 +324,7 @@ func dischargeAll(v *V, opts SolveOpts) {
 	}
 	scripts := func(o *Obl, slice bool) (string, string) {
 		decls := v.d.lines[:o.NDecls]
-		return buildScript(decls, v.axioms, o, false, slice), buildScript(decls, v.axioms, o, true, slice)
+		return buildScript(decls, v.axioms, o, false, slice, v.d.mode), buildScript(decls, v.axioms, o, true, slice, v.d.mode)
 	}
 	quickT := 3 * time.Second
 	if quickT > opts.Timeout {
